@@ -235,6 +235,16 @@ theorem radial_inverse_STG (z : ℝ) (h1 : -π < z) (h2 : z < π) : radialInv .S
 theorem radial_inverse_ZEA (z : ℝ) (h1 : -π ≤ z) (h2 : z ≤ π) : radialInv .ZEA (radial .ZEA z : ℝ) = z :=
   Aegean.C16.radial_inverse_ZEA z h1 h2
 
+/-- the linear part of the Lean zenithal WCS (CD matrix: CDELT, PC·CDELT, CROTA2, any rotation / mirror)
+    is inverted exactly whenever its determinant is non-zero -/
+theorem lin_inverse (h : ZenHdr ℝ) (hdet : h.cd11 * h.cd22 - h.cd12 * h.cd21 ≠ 0) (p1 p2 : ℝ) :
+    linInv h (linFwd h p1 p2).1 (linFwd h p1 p2).2 = (p1, p2) :=
+  Aegean.C16.lin_inverse h hdet p1 p2
+
+theorem lin_inverse_right (h : ZenHdr ℝ) (hdet : h.cd11 * h.cd22 - h.cd12 * h.cd21 ≠ 0) (x y : ℝ) :
+    linFwd h (linInv h x y).1 (linInv h x y).2 = (x, y) :=
+  Aegean.C16.lin_inverse' h hdet x y
+
 /-! ### Non-vacuity: the laws are satisfiable, and by a WCS on which the swap is visible -/
 
 /-- a (non-symmetric) affine "WCS" with its exact inverse satisfies `WcsLaws` on everything -/
